@@ -387,6 +387,15 @@ def alphabet_of_world(w, tier, depth):
                 for t in H.universe(w, H.LINK_TARGET[a]):
                     if w["objects"][t]["cls"] == w["objects"][v[1]]["cls"]:
                         letters.append((["link", n, a, t], "same" if t == v[1] else "other"))
+    # one grouped update re-pointing TWO holders to the same new target (both new wrappers are pending at once)
+    for a, b, attr in (("j1", "j2", "server"), ("up", "up2", "network"), ("up", "up2", "country"),
+                       ("up", "up2", "usage_journey")):
+        if a in w["objects"] and b in w["objects"]:
+            va, vb = w["objects"][a]["attrs"][attr], w["objects"][b]["attrs"][attr]
+            for t in H.universe(w, H.LINK_TARGET[attr]):
+                if t not in (va[1], vb[1]) and w["objects"][t]["cls"] == w["objects"][va[1]]["cls"]:
+                    letters.append((["multi", [["link", a, attr, t], ["link", b, attr, t]]], "two-holders-same-target"))
+                    break
     for n in ("j3", "j1", "s3", "s1", "uj_b", "uj", "d_b", "sv_b", "st_c", "up"):
         letters.append((["delete", n], ""))
     return letters
